@@ -17,8 +17,10 @@ CONSTANT ProducerLookupNormalised  \* normative TRUE: the producer is looked up 
 (* Part 1 - data                                                            *)
 (* entry   : [t, s, p]  produces entry as declared, p = parameter text ("" or e.g. "; charset=utf-8") *)
 (* cfg     : [produces: Seq(entry)  the route's Produces in the order the router holds them         *)
-(*            (assumed: the default media type has a registered producer - otherwise Respond panics) *)
-(*            default: entry        the API's default produces (p = "")                              *)
+(*            (assumed: whenever a body has to be written or a Responder served, the negotiated type *)
+(*             or the default type has a registered producer - otherwise Respond panics; no          *)
+(*             producer at all is needed for HEAD requests and 204 responses)                        *)
+(*            default: entry        the API's default produces (p = ""); NoFormat = the API has none *)
 (*            registry: Seq(id)     media types ("t/s") with a registered producer                   *)
 (*            declared: Seq(Nat)    declared response codes; 0 stands for `default`                  *)
 (*            realm: STRING]        realm of the basic authenticator                                 *)
@@ -27,8 +29,10 @@ CONSTANT ProducerLookupNormalised  \* normative TRUE: the producer is looked up 
 (*           error: code = the status the error carries (0: none); scripted = the handler returned  *)
 (*           this very error object (otherwise an earlier stage produced an error with that code)   *)
 
-Render(e) == e.t \o "/" \o e.s \o e.p        \* the entry as spelled = what Respond sees in `produces`
-Id(e)     == e.t \o "/" \o e.s                \* normalizeOffer: the parameter-free media type
+Render(e) == IF e.t = "" THEN "" ELSE e.t \o "/" \o e.s \o e.p   \* the entry as spelled = what Respond sees in `produces`
+Id(e)     == IF e.t = "" THEN "" ELSE e.t \o "/" \o e.s          \* normalizeOffer: the parameter-free media type
+NoFormat  == [t |-> "", s |-> "", p |-> ""]     \* the empty string: no format / an API without default producer
+HasDefault(c) == c.default # NoFormat
 JSONMime  == "application/json"
 
 Registered(c, id) == \E i \in DOMAIN c.registry : c.registry[i] = id
@@ -44,8 +48,8 @@ MinSuccess(c) == CHOOSE x \in Success(c) : \A y \in Success(c) : x <= y
 -----------------------------------------------------------------------------
 (* Part 2 - the property                                                    *)
 
-\* offers a response may be negotiated from: the route's produces and the API default
-Offers(c) == Range(c.produces) \cup {c.default}
+\* offers a response may be negotiated from: the route's produces and the API default (if the API has one)
+Offers(c) == Range(c.produces) \cup (IF HasDefault(c) THEN {c.default} ELSE {})
 
 Matches(rg, e) == \/ rg.t = e.t /\ rg.s = e.s
                   \/ rg.t = e.t /\ rg.s = "*"
@@ -55,12 +59,19 @@ Specificity(rg) == IF rg.s # "*" THEN 2 ELSE IF rg.t # "*" THEN 1 ELSE 0
 Ranks(acc, e) == { <<acc[j].q, Specificity(acc[j])>> : j \in { k \in DOMAIN acc : Matches(acc[k], e) /\ acc[k].q > 0 } }
 Better(a, b)  == a[1] > b[1] \/ (a[1] = b[1] /\ a[2] > b[2])
 BestRank(acc, e) == CHOOSE r \in Ranks(acc, e) : \A r2 \in Ranks(acc, e) : ~Better(r2, r)
-\* "the negotiated media type": an acceptable offer no other offer beats (ties: any - the statement does not order them)
-Negotiated(c, rq) ==
+\* the acceptable offers no other offer beats on (q, specificity)
+BestOffers(c, rq) ==
   IF rq.accept = <<>> THEN Offers(c)
   ELSE LET acc == rq.accept[1]
            ok  == { e \in Offers(c) : Ranks(acc, e) # {} }
        IN { e \in ok : \A e2 \in ok : ~Better(BestRank(acc, e2), BestRank(acc, e)) }
+\* "the negotiated media type".  Named reading DefaultOfferLast (Respond: "the default producer is last so more
+\* specific producers take precedence"): the API's default type is the answer only when no declared type is at
+\* least as acceptable.  Ties between declared types stay open (the router holds produces in map order).
+Negotiated(c, rq) ==
+  LET b == BestOffers(c, rq)
+      declared == { e \in b : Render(e) # Render(c.default) }
+  IN IF declared # {} THEN declared ELSE b
 
 \* observation o = [status, ctype, produced: Seq([id, val]), given: Seq(id), body, errs: Seq([code, same, ctype]), wwwauth]
 \*   ctype   Content-Type header of the response
@@ -79,6 +90,10 @@ AllowedValue(c, rq, out, o) ==
   IF ~HasSuccess(c)
   THEN \* named deviation NoDeclaredSuccess: only `default` / non-2xx responses declared -> 500 through the error responder
        /\ Len(o.errs) = 1 /\ o.errs[1].code = 500 /\ o.produced = <<>>
+  ELSE IF Offers(c) = {}
+  THEN \* nothing declared and no API default: there is no media type to negotiate; status and the no-body rule remain
+       /\ o.status = MinSuccess(c) /\ o.errs = <<>> /\ o.given = <<>>
+       /\ (rq.method = "HEAD" \/ MinSuccess(c) = 204) => o.produced = <<>> /\ o.body = ""
   ELSE \E f \in Negotiated(c, rq) :
          /\ o.status = MinSuccess(c)                                   \* "the operation's declared success status"
          /\ o.ctype = Render(f)                                        \* "Content-Type is the negotiated media type"
@@ -107,8 +122,6 @@ Challenge(realm) == "Basic realm=\"" \o realm \o "\""
 -----------------------------------------------------------------------------
 (* Part 3 - faithful model                                                  *)
 
-NoFormat == [t |-> "", s |-> "", p |-> ""]
-
 \* NegotiateContentType(r, offers, ""): offers in order x ranges in order, accumulator (bestQ, bestWild, bestOffer)
 RECURSIVE NegLoop(_, _, _, _, _)
 NegLoop(acc, offers, i, j, b) ==          \* b = [q, wild, offer]
@@ -132,10 +145,10 @@ Negotiate(accept, offers) ==
 \* Respond: `for _, mt := range produces { if mt != default { offers = append(offers, mt) } }; offers = append(offers, default)`
 RespondOffers(c) == SelectSeq(c.produces, LAMBDA e : Render(e) # Render(c.default)) \o <<c.default>>
 
-\* Context.ResponseFormat: the format memoised by request validation (negotiated over route.Produces) wins
-Format(c, rq, memo) == IF memo # <<>> THEN memo[1] ELSE Negotiate(rq.accept, RespondOffers(c))
-\* validation.responseFormat in the untyped flow stores a non-empty result; BindValidRequest stores nothing
-MemoUntyped(c, rq) == LET f == Negotiate(rq.accept, c.produces) IN IF f = NoFormat THEN <<>> ELSE <<f>>
+\* Context.ResponseFormat memoises the format in the context of the request it RETURNS; validation.responseFormat
+\* (untyped flow) keeps that request only when negotiation failed, BindValidRequest negotiates without memoising:
+\* in both flows Respond negotiates itself, over "declared types first, default last".
+Format(c, rq) == Negotiate(rq.accept, RespondOffers(c))
 
 NoObs == [status |-> 0, ctype |-> "", produced |-> <<>>, given |-> <<>>, body |-> "", errs |-> <<>>]
 
@@ -143,8 +156,8 @@ NoObs == [status |-> 0, ctype |-> "", produced |-> <<>>, given |-> <<>>, body |-
 TableKey(f) == IF ProducerLookupNormalised THEN Id(f) ELSE Render(f)
 FallbackDefault(c, key) == IF InTable(c, key) THEN key ELSE Id(c.default)   \* prods[c.api.DefaultProduces()]
 
-RespondModel(c, rq, out, memo) ==
-  LET f == Format(c, rq, memo) IN
+RespondModel(c, rq, out) ==
+  LET f == Format(c, rq) IN
   CASE out.k = "responder" ->                                           \* data.(Responder)
          [NoObs EXCEPT !.ctype = Render(f), !.given = << FallbackDefault(c, Id(f)) >>]
     [] out.k = "error" ->                                               \* data.(error)
